@@ -38,6 +38,9 @@ def run(rep: Report, tier: str) -> None:
 
     rb = rep.rule("C02.b", "a seek offers the cached remaining amount (> 0) or the full crypto_in; only exhausted lots are skipped", floor=4)
     engine.check_seek_amounts(rep, rb)
+    engine.check_partial_amount_accessors(rep, rb)
+    rg = rep.rule("C02.g", "amount comparisons: RP2Decimal ==, >=, > quantise the difference to 13 decimals and compare with ZERO; !=, <=, < are their negations", floor=8)
+    engine.check_decimal_comparisons(rep, rg)
 
     # ---------------------------------------------------------------- C02.c guard set
     rc = rep.rule("C02.c", "fail-closed guards: GainLoss and GainLossSet reject over-consumption, late lots and asset mismatches", floor=8)
@@ -53,7 +56,20 @@ def run(rep: Report, tier: str) -> None:
         rep.check(ok, rc, gl.module, init.qualname, f"GainLoss rejects: {what}", f"GainLoss.__init__ has no raise for '{what}' (guards found: {[g[:90] for g in guards]}): {why}", loc(init.node))
 
     has(lambda g: "is_taxable" in g and g.startswith("not "), "event that is not taxable", "a non-taxable transaction could be given a fraction")
-    has(lambda g: f"({amount} > " in g and "crypto_balance_change" in g and "InTransaction.__crypto_in" in g and " or " in g, "amount > event's outgoing amount or > lot's amount", "a fraction larger than the event or the lot would be accepted: the lot is overspent / the event over-covered")
+    # exact shape of the over-consumption guard: amount > event.crypto_balance_change  OR  (lot is not None AND amount > lot.crypto_in)
+    AMT = ("fld", ("sym", "self"), "GainLoss.__crypto_amount")
+    EVT = ("fld", ("sym", "self"), "GainLoss.__taxable_event")
+    LOT = ("fld", ("sym", "self"), "GainLoss.__acquired_lot")
+
+    def _over(g) -> bool:
+        if g[0] != "or" or len(g[1]) != 2:
+            return False
+        ev = [a for a in g[1] if a[0] == "cmp" and a[1] == ">" and a[2] == AMT and a[3][0] == "virt" and a[3][1] == "crypto_balance_change" and a[3][2] == EVT]
+        lt = [a for a in g[1] if a[0] == "and" and any(x == ("cmp", ">", AMT, ("fld", LOT, "InTransaction.__crypto_in")) for x in a[1]) and all(x == ("cmp", ">", AMT, ("fld", LOT, "InTransaction.__crypto_in")) or x in (("cmp", "is not", LOT, ("const", None)), ("truthy", LOT)) for x in a[1])]
+        return len(ev) == 1 and len(lt) == 1
+
+    ok_over = any(_over(g) for g, _ in raises)
+    rep.check(ok_over, rc, gl.module, init.qualname, "GainLoss rejects: amount > event's outgoing amount or > lot's amount", f"GainLoss.__init__ has no raise under exactly 'crypto_amount > taxable_event.crypto_balance_change or (acquired_lot and crypto_amount > acquired_lot.crypto_in)' (guards found: {[g[:110] for g in guards if '>' in g]}): a fraction larger than the event or the lot would be accepted: the lot is overspent / the event over-covered", loc(init.node))
     has(lambda g: "AbstractTransaction.__timestamp" in g and "<" in g and "acquired_lot is not None" in g and "taxable_event." in g, "event earlier than its lot", "a fraction could come from a lot acquired after the disposal")
     has(lambda g: "AbstractEntry.__asset" in g and "!=" in g, "event and lot of different assets", "a disposal could consume another asset's lot")
     has(lambda g: "acquired_lot is None" in g and "is_earning" in g, "disposal without a lot", "a disposal fraction without a lot would carry zero cost basis")
